@@ -421,6 +421,12 @@ def step (s : St) (op impl : String) : St × StepOut :=
         match rfcForbidden c.lvl c.supportsDatagrams c.supportsResetStreamAt c.supportsAckFrequency b with
         | some why => fails := fails ++ [("rejects_out_of_range", "-", s!"accepted although RFC 9000 forbids it: {why}")]
         | none => pure ()
+        -- the ACK Delay is scaled by the exponent that applies at this level
+        match ackDelaySpecNs c.lvl c.ackDelayExponent b with
+        | some ns =>
+          if ftext.startsWith "ack " ∧ kvn (words ftext) "d=" ≠ ns then
+            fails := fails ++ [("ack_delay_spec", "-", s!"RFC 9000 §19.3 gives a delay of {ns} ns, implementation {kvn (words ftext) "d="}")]
+        | none => pure ()
         -- dec(enc(v)) = v
         match s.encs.find? (fun e => e.hex = h) with
         | some e =>
